@@ -31,10 +31,10 @@ class Chunk:
         def from_string(cls, txt : str):
             if "vertices" in txt: return cls.VERTICES
             if "edges" in txt : return cls.EDGES
+            if "cell_corners" in txt : return cls.CELL_CORNERS
+            if "cell_facets" in txt : return cls.CELL_FACETS # before "facets", which it contains
             if "facet_corners" in txt : return cls.FACE_CORNERS
             if "facets" in txt : return cls.FACES
-            if "cell_corners" in txt : return cls.CELL_CORNERS
-            if "cell_facets" in txt : return cls.CELL_FACETS
             if "cells" in txt : return cls.CELLS
 
         def to_string(self):
@@ -134,7 +134,7 @@ def import_geogram_ascii(path):
             # cell sizrs are provided : the mesh is not tetrahedral
             for i in range(container_sizes[Chunk.Container.CELLS]-1):
                 n_corner_in_cell.append(chk.data[i+1] - chk.data[i])
-            n_corner_in_facet.append(container_sizes[Chunk.Container.CELL_CORNERS] - chk.data[-1])
+            n_corner_in_cell.append(container_sizes[Chunk.Container.CELL_CORNERS] - chk.data[-1])
             cell_ptr = chk.data
 
     if len(n_corner_in_facet)==0 and container_sizes[Chunk.Container.FACES]>0:
@@ -265,6 +265,13 @@ def export_geogram_ascii(mesh : RawMeshData, path):
         if hasattr(mesh, "faces") and not mesh.faces.empty():
             n_face = len(mesh.faces)
             f.write(f"[ATTS]\n\"GEO::Mesh::facets\"\n{n_face}\n")
+            if any(len(face)!=3 for face in mesh.faces):
+                # faces are not all triangles: the corners of face i start at facet_ptr[i]
+                f.write("[ATTR]\n\"GEO::Mesh::facets\"\n\"GEO::Mesh::facets::facet_ptr\"\n\"index_t\"\n4\n1\n")
+                ptr = 0
+                for face in mesh.faces:
+                    f.write(f"{ptr}\n")
+                    ptr += len(face)
             for attr_key in mesh.faces.attributes:
                 attr = mesh.faces.get_attribute(attr_key)
                 export_attribute(f, n_face, "GEO::Mesh::facets", attr, attr_key)
@@ -291,6 +298,13 @@ def export_geogram_ascii(mesh : RawMeshData, path):
         if hasattr(mesh, "cells") and not mesh.cells.empty():
             n_cells = len(mesh.cells)
             f.write("[ATTS]\n\"GEO::Mesh::cells\"\n{}\n".format(n_cells))
+            if any(len(cell)!=4 for cell in mesh.cells):
+                # cells are not all tetrahedra: the corners of cell i start at cell_ptr[i]
+                f.write("[ATTR]\n\"GEO::Mesh::cells\"\n\"GEO::Mesh::cells::cell_ptr\"\n\"index_t\"\n4\n1\n")
+                ptr = 0
+                for cell in mesh.cells:
+                    f.write(f"{ptr}\n")
+                    ptr += len(cell)
             for attr_key in mesh.cells.attributes:
                 attr = mesh.cells.get_attribute(attr_key)
                 export_attribute(f, n_cells, "GEO::Mesh::cells", attr, attr_key)
@@ -307,13 +321,17 @@ def export_geogram_ascii(mesh : RawMeshData, path):
                 export_attribute(f, n_corners, "GEO::Mesh::cell_corners", attr, attr_key)
                    
             # Cell faces
-            n_cell_faces = sum([len(c) for c in mesh.cells])
-            cell_adj = mesh.cell_faces.get_attribute("adjacent_cell")
-            f.write("[ATTR]\n\"GEO::Mesh::cell_corners\"\n\"GEO::Mesh::cell_faces::adjacent_cell\"\n\"index_t\"\n4\n1\n")
-            for x in cell_adj:
-                f.write(f"{x}\n")
+            n_cell_faces = len(mesh.cell_faces)
+            f.write("[ATTS]\n\"GEO::Mesh::cell_facets\"\n{}\n".format(n_cell_faces))
+            if mesh.cell_faces.has_attribute("adjacent_cell") and all(len(c)==4 for c in mesh.cells):
+                # adjacent_cell is indexed by (cell, local face): one value per cell facet, in cell order
+                cell_adj = mesh.cell_faces.get_attribute("adjacent_cell")
+                f.write("[ATTR]\n\"GEO::Mesh::cell_facets\"\n\"GEO::Mesh::cell_facets::adjacent_cell\"\n\"index_t\"\n4\n1\n")
+                for ic,cell in enumerate(mesh.cells):
+                    for i in range(len(cell)):
+                        f.write(f"{cell_adj[(ic,i)]}\n")
 
             for attr_key in mesh.cell_faces.attributes:
                 if attr_key=="adjacent_cell" : continue
                 attr = mesh.cell_faces.get_attribute(attr_key)
-                export_attribute(f, n_cell_faces, "GEO::Mesh::cell_faces", attr, attr_key)
+                export_attribute(f, n_cell_faces, "GEO::Mesh::cell_facets", attr, attr_key)
